@@ -23,6 +23,8 @@ type World struct {
 	// per-case name suffix, which differs between processes, must not reach
 	// the event log when a program reports names it has defined.
 	Scrub string
+	// once holds the ids (sim-once id) has been called with in this run.
+	once map[string]bool
 }
 
 var cur *World
@@ -57,6 +59,39 @@ func init() {
 			Return: "nil",
 			Text:   "records a marker in the simulation's event log",
 		}, &slip.UserPkg)
+}
+
+func init() {
+	slip.Define(
+		func(args slip.List) slip.Object {
+			f := once{Function: slip.Function{Name: "sim-once", Args: args}}
+			f.Self = &f
+			return &f
+		},
+		&slip.FuncDoc{
+			Name:   "sim-once",
+			Args:   []*slip.DocArg{{Name: "id", Type: "object"}},
+			Return: "boolean",
+			Text:   "returns t the first time it is called with id in a simulated run, nil afterwards",
+		}, &slip.UserPkg)
+}
+
+type once struct{ slip.Function }
+
+func (f *once) Call(s *slip.Scope, args slip.List, depth int) slip.Object {
+	w := cur
+	if w == nil || len(args) != 1 {
+		return nil
+	}
+	k := slip.ObjectString(args[0])
+	if w.once[k] {
+		return nil
+	}
+	if w.once == nil {
+		w.once = map[string]bool{}
+	}
+	w.once[k] = true
+	return slip.True
 }
 
 type emit struct{ slip.Function }
